@@ -17,13 +17,15 @@ _COUNTER = itertools.count()
 RUNTIME_FILES = ["__init__.py", "_hooks.py", "converters.py", "validators.py", "py.typed"]
 
 
-def load_model(doc: dict):
+def load_model(doc):
+    """doc: one metamodel document, or a list of them (several model files, merged by the generator)."""
     setup_sys_path()
     from generator import model
-    return model.create_lsp_model([copy.deepcopy(doc)])
+    docs = doc if isinstance(doc, list) else [doc]
+    return model.create_lsp_model([copy.deepcopy(x) for x in docs])
 
 
-def run_plugin_inprocess(plugin: str, doc: dict, out_dir: str) -> None:
+def run_plugin_inprocess(plugin: str, doc, out_dir: str) -> None:
     """exactly what generator.__main__ does after validation: fresh model, plugin.generate(spec, out, test)."""
     setup_sys_path()
     spec = load_model(doc)
